@@ -32,8 +32,14 @@ def cases(rng, tier):
                 if rng.random() < 0.12:
                     b, u = G.edge_simplex(rng, fmt, n, "vac_edge")
                     w = b + [u] + [float(x) for x in G.rand_dist(rng, n, den)]
-                elif rng.random() < 0.15:
-                    b, u = G.float_simplex(rng, fmt, n)
+                elif rng.random() < 0.3:
+                    # arbitrary floats; non-dyadic base rates whose float sum is 1 only within a few ulps ("unchanged" is bit-exact)
+                    if rng.random() < 0.5:
+                        b, u = G.float_simplex(rng, fmt, n)
+                        b = list(b)
+                    else:
+                        bb, uu = G.rand_simplex(rng, n, den, kind)
+                        b, u = [float(v) for v in bb], float(uu)
                     w = b + [u] + G.float_dist(rng, fmt, n)
                 else:
                     w = G.rand_opinion(rng, n, den, kind)
